@@ -52,7 +52,41 @@ def writer_sessions(ctx):
                 _WS_ERRORS.append(f"{type(ex).__name__}: {ex} | " + traceback.format_exc()[-400:])
                 continue
             _WS.append(s)
+        # round 7: sessions whose FIRST chunk(s) lie at the real-world origin (offsets 0, X = Y = Z = 0 on all / some axes): the statistics gathered so
+        # far are then the zeros an empty cloud has, while points ARE stored; the later chunks lie on one side of the origin, which must stay
+        # inside the bounding box
+        for _ in range(ctx.n(45, 400)):
+            try:
+                s = lasio.ws_gen(ctx.rng, ctx.thorough(), nonascii=False)
+                _origin_first(ctx.rng, s)
+                s["run"] = lasio.ws_run(s)
+            except Exception as ex:
+                import traceback
+                _WS_ERRORS.append(f"{type(ex).__name__}: {ex} | " + traceback.format_exc()[-400:])
+                continue
+            _WS.append(s)
     return _WS
+
+
+def _origin_first(rng, s):
+    h = s["header"]
+    axes = (0, 1, 2) if rng.random() < 0.6 else tuple(sorted(rng.sample([0, 1, 2], rng.choice([1, 2]))))
+    of = np.array(h.offsets, dtype=np.float64)
+    for ax in axes:
+        of[ax] = 0.0
+    h.offsets = of
+    side = rng.choice([1, -1])
+    npre = rng.choice([1, 1, 2])
+    for op in s["ops"]:
+        if op[0] == "P" and op[2] and len(op[1]) and not hasattr(op[1], "scales") and op[1].array.ndim:
+            for ax in axes:
+                kx = "XYZ"[ax]
+                if npre > 0:
+                    op[1].array[kx] = np.int32(0)
+                else:
+                    op[1].array[kx] = (side * (np.abs(op[1].array[kx].astype(np.int64)) % 100000 + 1)).astype(np.int32)
+            npre -= 1
+    s["origin_first"] = {"axes": ["XYZ"[ax] for ax in axes], "later_chunks_on_side": side}
 
 
 def ensembles(ctx):
@@ -165,7 +199,43 @@ def inmem_cases(ctx):
             las.points.array["bit_fields"][:] = np.array([rng.randrange(256) for _ in range(n)], dtype=np.uint8)
             las.update_header()
             out.append(("update_header()", las))
+    # round 7: points assigned (the header is in sync), then the record is REBUILT by the library itself - add_extra_dim(s) / remove_extra_dim(s) make a
+    # new record of the grown / shrunk format and put it in place of the assigned one: the header must describe that record (same count, extrema,
+    # histogram: the points are the same) and the standard dimensions must be the ones assigned. (A header that was ALREADY stale before the call -
+    # dimensions edited in place, no update_header() - is outside the statement: it lists assignment, indexing and update_header().)
+    for _ in range(ctx.n(40, 400)):
+        h = lasio.rand_header(rng)
+        pre = rng.choice([0, 1, 2])
+        if pre:
+            lasio.add_extra_dims(rng, h, pre)
+        n = rng.choice([0, 1, 2, 9])
+        pts = lasio.rand_points(rng, h, n) if rng.random() < 0.5 else lasio.sweep_points(rng, h, n)
+        las = laspy.LasData(header=h)
+        las.points = pts
+        std = [nm for nm in pts.array.dtype.names if nm not in set(h.point_format.extra_dimension_names)]
+        want = [pts.array[nm].copy() for nm in std]
+        names = list(h.point_format.extra_dimension_names)
+        op = rng.choice(["add_extra_dim", "add_extra_dims"] + (["remove_extra_dim", "remove_extra_dims"] if names else []))
+        try:
+            if op == "add_extra_dim":
+                las.add_extra_dim(laspy.ExtraBytesParams("q_" + lasio.rand_ascii(rng, 4, [c for c in range(97, 123)]), rng.choice(["u1", "i4", "f8", "3u2"])))
+            elif op == "add_extra_dims":
+                las.add_extra_dims([laspy.ExtraBytesParams(f"q{j}_" + lasio.rand_ascii(rng, 3, [c for c in range(97, 123)]), rng.choice(["u2", "f4", "2i1"])) for j in range(rng.choice([1, 2]))])
+            elif op == "remove_extra_dim":
+                las.remove_extra_dim(rng.choice(names))
+            else:
+                las.remove_extra_dims(names if rng.random() < 0.5 else [rng.choice(names)])
+            kept = all(las.points.array[nm].tobytes() == w.tobytes() for nm, w in zip(std, want))
+        except Exception as ex:
+            _INMEM_REBUILD.append((op, n, f"{type(ex).__name__}: {ex}"))
+            continue
+        if not kept:
+            _INMEM_REBUILD.append((op, n, "the standard dimensions of the rebuilt record are not the ones assigned"))
+        out.append((f"points assigned, then {op}", las))
     return out
+
+
+_INMEM_REBUILD = []
 
 
 def header_stats_problems(h, rec):
@@ -757,6 +827,8 @@ def search(ctx, seeds):
             probs = header_stats_problems(las.header, las.points)
             if probs:
                 add("in-memory header after " + label.split("[")[0] + ": " + probs[0].split(" ")[0], {"op": label, "points": len(las.points), "version": str(las.header.version), "format": las.header.point_format.id}, "; ".join(probs[:3]))
+        for op, n, why in _INMEM_REBUILD:
+            add(f"LasData.{op} after points were assigned: " + ("raised" if "Error" in why or "Exception" in why else "points changed"), {"op": op, "points": n}, why)
         # round 6: every index expression; the selection must hold exactly the records numpy selects from the same array, the parent must stay as it was
         for label, ixs, sub, want, note, n in _INMEM_SEL:
             ctx.count("inmem-selection:" + label)
